@@ -505,3 +505,10 @@ def run(repo: Repo, tier: str) -> Report:
     rep.analysed = {"kernels": len(kernels), **tot}
     rep.floor("subscripts analysed", tot.get("subs", 0), 450)
     return rep
+
+
+def thorough(repo: Repo, rep: Report):
+    """Cross-check of the AST array-ness approximation (used by R-DIVGUARD / E5) against Numba's typed IR."""
+    from ..thorough import crosscheck_arrays
+    kernels = load_kernels(repo)
+    return {"arrays_ast_vs_typed_ir": crosscheck_arrays(repo, kernels, None)}
